@@ -63,7 +63,8 @@ CLASSES = [
 MAPS = [m for m in MAPS if m[0] != 'struct']
 # members whose *image types* are subclasses of one another (datetime < date, bool < int, IntEnum < int, PosixPath < PurePosixPath,
 # OrderedDict / Counter / defaultdict < dict): a converter that recognises typed values with isinstance claims its neighbour's values
-TEMPORAL = [S('date'), S('time'), S('datetime'), S('str')]
+TEMPORAL = [S('date'), S('time'), S('datetime'), S('str'), ('map', 'Dict', S('str'), S('datetime')), ('map', 'Dict', S('str'), S('date')),
+            ('cls', {'fields': [{'name': 'x', 'type': S('date')}], 'opts': {}}), ('cls', {'fields': [{'name': 'x', 'type': S('time')}], 'opts': {}})]
 SUBTYPED = [S('int'), S('bool'), ('enum', 'IE'), ('enum', 'IE0'), ('sub', 'int'), S('float'), ('sub', 'float'), ('enum', 'FE0')]
 PATHS = [S('PurePosixPath'), S('Path'), S('PurePath'), S('str'), S('PathLike')]
 MAPS2 = [('map', 'Dict', S('str'), S('int')), ('map', 'OrderedDict', S('str'), S('int')), ('map', 'Counter', S('str')),
@@ -74,14 +75,18 @@ def _tagged(layout: t.Any, tagname: str, tags: t.Sequence[t.Any]) -> t.Any:
     # variants that differ in nothing but the tag: only dispatch by tag tells them apart, structural trial picks the first
     variants = tuple({'fields': [{'name': tagname, 'type': ('lit', (tg_,)), 'default': ['value', tg_]},
                                  {'name': 'size', 'type': S('float'), 'default': ['value', 1.0]}],
-                      'opts': {}, 'name': f"Shape{i}{str(layout)[:3]}{tagname}"} for (i, tg_) in enumerate(tags))
+                      'opts': {}, 'name': f"Shape{i}{str(layout)[:3]}{tagname}", **({'annotated': True} if i == 0 and len(tags) == 3 else {})}
+                     for (i, tg_) in enumerate(tags))
     return ('tagged', layout, tagname, variants)
 
 
 # a tagged union as one member of an untagged union: dispatch inside it stays by tag, and its values are serialised in tagged form
 TAGGED = [_tagged('internal', 'kind', ('circle', 'square')), _tagged('external', 'kind', ('circle', 'square')),
           _tagged(['adjacent', 't', 'c'], 'kind', ('circle', 'square')), _tagged('external', 'ty', (1, 2, 3)),
-          ('map', 'Dict', S('str'), S('any')), S('none'), ('seq', 'List', S('int')), CLASSES[3], S('str')]
+          ('map', 'Dict', S('str'), S('any')), S('none'), ('seq', 'List', S('int')), CLASSES[3], S('str'),
+          # containers of tagged unions: the union must serialise them through the member (tagged form), not by runtime type
+          ('seq', 'FrozenSet', _tagged('external', 'kind', ('circle', 'square'))), ('seq', 'Set', _tagged(['adjacent', 't', 'c'], 'kind', ('circle', 'square'))),
+          ('seq', 'List', _tagged('external', 'kind', ('circle', 'square'))), ('vol', _tagged('external', 'kind', ('circle', 'square')))]
 # members that recognise a typed value by comparing it (literals, enums) next to values whose == is not a bool (arrays)
 ARRAYS = [('lit', (None, True)), ('lit', (1, 2)), ('enum', 'IntE'), ('nd', 'int64'), ('nd', None), ('seq', 'List', S('int')), S('int'), S('none'),
           ('enum', 'IE0'), ('lit', ('a', 'x'))]
